@@ -29,10 +29,15 @@ type scenario struct {
 	srcThere bool
 	crossFS  bool
 	exdev    bool // inject EXDEV on the rename (when no second file system is available)
+	zeros    int  // 1: the second half of the content is zero bytes, 2: all of it (holes, sparse-file shortcuts)
 }
 
 func (s scenario) String() string {
-	return fmt.Sprintf("%s size=%d dest=%s alias=%s parent=%s source=%v crossfs=%v", s.fn, s.size, s.dest, s.alias, s.parent, s.srcThere, s.crossFS || s.exdev)
+	z := ""
+	if s.zeros > 0 {
+		z = []string{"", " content=zero-tail", " content=all-zero"}[s.zeros]
+	}
+	return fmt.Sprintf("%s size=%d%s dest=%s alias=%s parent=%s source=%v crossfs=%v", s.fn, s.size, z, s.dest, s.alias, s.parent, s.srcThere, s.crossFS || s.exdev)
 }
 
 func content(n int, seed byte) []byte {
@@ -67,6 +72,12 @@ func setup(s scenario, base string) (*env, bool) {
 	}
 	if s.srcThere {
 		e.srcData = content(s.size, 0x5a)
+		switch s.zeros {
+		case 1:
+			clear(e.srcData[len(e.srcData)/2:])
+		case 2:
+			clear(e.srcData)
+		}
 		if err := os.WriteFile(e.src, e.srcData, 0o644); err != nil {
 			return nil, false
 		}
@@ -97,6 +108,15 @@ func setup(s scenario, base string) (*env, bool) {
 			return nil, false
 		}
 		if os.Link(e.src, e.dst) != nil {
+			return nil, false
+		}
+	case "srclink":
+		// the other way round: the source path is a symbolic link to the destination file
+		if !s.srcThere || s.parent != "ok" {
+			return nil, false
+		}
+		os.Remove(e.src)
+		if os.WriteFile(e.dst, e.srcData, 0o644) != nil || os.Symlink(e.dst, e.src) != nil {
 			return nil, false
 		}
 	default:
@@ -240,10 +260,21 @@ func scenarios() []scenario {
 					}
 				}
 			}
-			for _, alias := range []string{"same", "dotslash", "symlink", "hardlink"} {
+			for _, alias := range []string{"same", "dotslash", "symlink", "hardlink", "srclink"} {
 				out = append(out, scenario{fn: fn, size: size, dest: "absent", alias: alias, parent: "ok", srcThere: true})
 				if fn == "move" && alias == "symlink" {
 					out = append(out, scenario{fn: fn, size: size, dest: "absent", alias: alias, parent: "ok", srcThere: true, exdev: true})
+				}
+			}
+		}
+	}
+	// content with holes, at sizes that are multiples of the usual block sizes
+	for _, fn := range []string{"copy", "move"} {
+		for _, size := range []int{64 << 10, 128 << 10, 1 << 20} {
+			for z := 1; z <= 2; z++ {
+				out = append(out, scenario{fn: fn, size: size, dest: "absent", alias: "none", parent: "ok", srcThere: true, zeros: z})
+				if fn == "move" {
+					out = append(out, scenario{fn: fn, size: size, dest: "existing", alias: "none", parent: "ok", srcThere: true, zeros: z, crossFS: otherFS != "", exdev: otherFS == ""})
 				}
 			}
 		}
